@@ -1,5 +1,5 @@
 (* Pinned statements of C06: re-checked on every run. *)
-From SF Require Import Base.Prelude Gen.Generated Unsized.Types Unsized.Parse Unsized.Machine Unsized.Ops Unsized.Run Unsized.Proofs.EncodeParse Unsized.Proofs.Mem Unsized.Proofs.Notify Unsized.Proofs.Flat Unsized.Proofs.Layout Unsized.Proofs.Observe Unsized.Proofs.Path Unsized.Proofs.Context Unsized.Proofs.FocusOps Unsized.Proofs.NotifyInside Unsized.Proofs.Resize Unsized.Proofs.GenOps Unsized.Proofs.History Unsized.Proofs.Init Unsized.Proofs.History2 Unsized.Proofs.ExecTie Unsized.Proofs.ExecTie2 Unsized.Proofs.Keyed Unsized.Proofs.NotifyInside2 Unsized.Proofs.SetData Unsized.Proofs.History3 Unsized.Proofs.History4 Properties.C06.
+From SF Require Import Base.Prelude Gen.Generated Unsized.Types Unsized.Parse Unsized.Machine Unsized.Ops Unsized.Run Unsized.Proofs.EncodeParse Unsized.Proofs.Mem Unsized.Proofs.Notify Unsized.Proofs.Flat Unsized.Proofs.Layout Unsized.Proofs.Observe Unsized.Proofs.Path Unsized.Proofs.Context Unsized.Proofs.FocusOps Unsized.Proofs.NotifyInside Unsized.Proofs.Resize Unsized.Proofs.GenOps Unsized.Proofs.History Unsized.Proofs.Init Unsized.Proofs.History2 Unsized.Proofs.ExecTie Unsized.Proofs.ExecTie2 Unsized.Proofs.Keyed Unsized.Proofs.NotifyInside2 Unsized.Proofs.SetData Unsized.Proofs.History3 Unsized.Proofs.History4 Unsized.Proofs.InitFail Properties.C06.
 
 Check (C06_all_ops_continue_after_failures :
   forall ovf t h v s top pi0 v' l,
@@ -48,6 +48,12 @@ Check (C06_flat_continue_after_failure :
     exists s', mrun ts s top h = Ok (s', PStruct (lay ts vs' 0)) /\ Rep ts vs' s' (PStruct (lay ts vs' 0))).
 Check (C06_realloc_refusal_precedes_writes :
   forall s n, m_len s < n -> m_refuse s = 1 -> realloc s n = Err E_REALLOC).
+Check (C06_failing_initializer_refuted :
+  ~ (forall t v s top ps idx kind keys s' top' c,
+       wf t v = true -> ztake (m_len s) (m_mem s) = encode t v ->
+       get_ptr true t (m_mem s) 0 (m_len s) = Ok (top, m_len s) ->
+       ulist_insert t s top ps idx kind keys = Ok (s', top', [-1; c]) ->
+       ztake (m_len s') (m_mem s') = encode t v)).
 
 Print Assumptions C06_all_ops_continue_after_failures.
 Print Assumptions C06_all_ops_failure_is_clean.
@@ -59,3 +65,4 @@ Print Assumptions C06_flat_prefix_overflow_is_clean.
 Print Assumptions C06_flat_remove_errors_are_clean.
 Print Assumptions C06_flat_continue_after_failure.
 Print Assumptions C06_realloc_refusal_precedes_writes.
+Print Assumptions C06_failing_initializer_refuted.
